@@ -17,7 +17,7 @@ RULE = (
     "loaded values of every variable incl. pixels, coordinates, encodings) are identical except "
     "encoding.preferred_chunksizes of the image variable, which must be {rows: min(rpc, N), "
     "columns: P}; each tree is then read again in pieces (rows 1.., every 3rd row, all rows) and "
-    "must return the pixels of its first full load. Stage 'giant-chunk': one 1100-line image of 1.1 GB; with rpc=4096 the whole image is ONE request of more than 2^30 bytes; six lines before / at / beyond the first GiB of that request are compared with the bytes of the file, for rpc=64 and rpc=4096. Non-trivial: rpc1 != rpc2 and min(rpc1, rpc2) < N."
+    "must return the pixels of its first full load. In half of the cases each judged open is the second call handed the same options dict object. Stage 'giant-chunk': one 1100-line image of 1.1 GB; with rpc=4096 the whole image is ONE request of more than 2^30 bytes; six lines before / at / beyond the first GiB of that request are compared with the bytes of the file, for rpc=64 and rpc=4096. Non-trivial: rpc1 != rpc2 and min(rpc1, rpc2) < N."
 )
 ASSUMPTIONS = ["dask is absent: chunks=None; the advertised chunking is observed through .encoding"]
 BUDGET = {"quick": 120, "thorough": 1500}
@@ -204,7 +204,16 @@ def run_case(case):
     with harness.Materialised(files, case.get("fs", "memory")) as prod:
         flats = []
         for tag in ("rpc1", "rpc2"):
-            tree, err = harness.guard(harness.open_tree, prod.url, records_per_chunk=case[tag], use_cache=False)
+            options = {"records_per_chunk": case[tag], "use_cache": False}
+            if (case["rpc1"] + case["rpc2"] + case.get("vseed", 0)) % 2:
+                # "build the options once, call often": the judged open is the second one that is
+                # handed this very dict object
+                import ceos_alos2
+
+                harness.guard(ceos_alos2.open_alos2, prod.url, backend_options=options)
+                tree, err = harness.guard(ceos_alos2.open_alos2, prod.url, backend_options=options)
+            else:
+                tree, err = harness.guard(harness.open_tree, prod.url, **options)
             if err is not None:
                 return [harness.disc("exception", f"open_alos2({tag}={case[tag]})", "a tree", harness.exc_text(err))]
             flat, err = harness.guard(harness.flatten, tree)
